@@ -301,7 +301,10 @@ func (rm *RequestManager) processResponses(p peer.ID,
 		attribute.Int("blockCount", len(blks)),
 	))
 	defer span.End()
-	filteredResponses := rm.processExtensions(responses, p)
+	// responses to a request that is in progress with a different peer are dropped before anything
+	// else sees them: hooks, hook-triggered cancels and update requests are for its responder only
+	filteredResponses := rm.dropResponsesForOtherPeersRequests(responses, p)
+	filteredResponses = rm.processExtensions(filteredResponses, p)
 	filteredResponses = rm.filterResponsesForPeer(filteredResponses, p)
 	blkMap := make(map[cid.Cid][]byte, len(blks))
 	for _, blk := range blks {
@@ -328,6 +331,19 @@ func (rm *RequestManager) filterResponsesForPeer(responses []gsmsg.GraphSyncResp
 		responsesForPeer = append(responsesForPeer, response)
 	}
 	return responsesForPeer
+}
+
+func (rm *RequestManager) dropResponsesForOtherPeersRequests(responses []gsmsg.GraphSyncResponse, p peer.ID) []gsmsg.GraphSyncResponse {
+	remainingResponses := make([]gsmsg.GraphSyncResponse, 0, len(responses))
+	for _, response := range responses {
+		requestStatus, ok := rm.inProgressRequestStatuses[response.RequestID()]
+		if ok && requestStatus.p != p {
+			log.Warnf("ignoring response from %s for request %s, which was sent to %s", p, response.RequestID().String(), requestStatus.p)
+			continue
+		}
+		remainingResponses = append(remainingResponses, response)
+	}
+	return remainingResponses
 }
 
 func (rm *RequestManager) processExtensions(responses []gsmsg.GraphSyncResponse, p peer.ID) []gsmsg.GraphSyncResponse {
